@@ -77,6 +77,7 @@ func coordSetOrdered(t *tri) [3]string {
 
 // hist3 is one history: the real mesh and the plain list of its current faces.
 type hist3 struct {
+	startFail string // "sig|message" of a violation found while the starting mesh was made
 	real    *model3d.Mesh
 	list    []*tri // insertion order, pointer identity
 	removed []*tri
@@ -243,7 +244,7 @@ func meshHash3(m *model3d.Mesh) string {
 
 // startMesh3 picks how the history begins.
 func startMesh3(src *choice.Source, h *hist3) {
-	kind := src.Intn(10) // (recorded tapes hold reduced values, so the range may grow)
+	kind := src.Intn(12) // (recorded tapes hold reduced values, so the range may grow)
 	switch kind {
 	case 0:
 		h.real = model3d.NewMesh()
@@ -350,6 +351,81 @@ func startMesh3(src *choice.Source, h *hist3) {
 			h.log("MarchingCubesConj(iters=%d)", iters)
 		}
 	}
+	if kind >= 10 {
+		// bystander: a library operation that returns a new mesh is applied to a closed
+		// surface (queried before or not, copied before or not) and its result thrown
+		// away; the source and the earlier copy must not notice - neither their face
+		// values nor, as the history goes on, their index
+		var s0 *model3d.Mesh
+		switch src.Intn(3) {
+		case 0:
+			s0 = model3d.NewMeshRect(model3d.XYZ(0, 0, 0), model3d.XYZ(1, 2, 0.5))
+		case 1:
+			s0 = model3d.NewMeshIcosphere(model3d.XYZ(0, 0, 0), 1, 1+src.Intn(2))
+		default:
+			s0 = model3d.NewMeshTorus(model3d.XYZ(0, 0, 0), model3d.Z(1), 0.2, 0.6, 5, 6+src.Intn(3))
+		}
+		if src.Chance(1, 2) {
+			s0.VertexSlice()
+		}
+		var cp *model3d.Mesh
+		if src.Chance(1, 2) {
+			cp = s0.Copy()
+			if src.Chance(1, 2) {
+				cp.VertexSlice()
+			}
+		}
+		before := meshHash3(s0)
+		opName := ""
+		switch src.Intn(9) {
+		case 0:
+			s0.EliminateCoplanar(1e-8)
+			opName = "EliminateCoplanar"
+		case 1:
+			k := 0
+			s0.EliminateEdges(func(tmp *model3d.Mesh, seg model3d.Segment) bool { k++; return k%4 == 0 && k < 40 })
+			opName = "EliminateEdges"
+		case 2:
+			s0.FlattenBase(0.3)
+			opName = "FlattenBase"
+		case 3:
+			s0.Repair(1e-8)
+			opName = "Repair"
+		case 4:
+			s0.FlipDelaunay()
+			opName = "FlipDelaunay"
+		case 5:
+			s0.Blur(0.5)
+			opName = "Blur"
+		case 6:
+			s0.SmoothAreas(0.05, 1+src.Intn(3))
+			opName = "SmoothAreas"
+		case 7:
+			model3d.DecimateSimple(s0, 0.05)
+			opName = "DecimateSimple"
+		default:
+			s0.InvertNormals()
+			opName = "InvertNormals"
+		}
+		h.log("bystander of %s", opName)
+		if meshHash3(s0) != before {
+			h.st.StartHash = "!"
+			h.real = s0
+			h.list = sortedFaces(h.real.TriangleSlice())
+			h.startFail = "bystander-values|" + opName + " changed the faces of the mesh it was called on (it returns a new mesh)"
+			return
+		}
+		if cp != nil && meshHash3(cp) != before {
+			h.real = cp
+			h.list = sortedFaces(h.real.TriangleSlice())
+			h.startFail = "bystander-values|" + opName + " changed the faces of an earlier Copy of the mesh it was called on"
+			return
+		}
+		h.real = s0
+		if cp != nil && src.Chance(1, 2) {
+			h.real = cp
+		}
+	}
 	h.list = sortedFaces(h.real.TriangleSlice())
 	if kind >= 2 {
 		// continue the history with vertices of that mesh in the pool
@@ -371,6 +447,10 @@ func runMesh3(t testingT, src, sched *choice.Source, st *Stats) (fs []Finding) {
 		h.pool = append(h.pool, model3d.XYZ(float64(len(h.pool)), 1, 2))
 	}
 	startMesh3(src, h)
+	if h.startFail != "" {
+		p := strings.SplitN(h.startFail, "|", 2)
+		return h.fail(p[0], p[1])
+	}
 	if f := h.checkFree(); f != nil {
 		return f
 	}
@@ -435,6 +515,12 @@ func runMesh3(t testingT, src, sched *choice.Source, st *Stats) (fs []Finding) {
 			}
 			for _, t := range add {
 				other.Add(t)
+			}
+			if k%2 == 1 {
+				// the merged-in mesh has been queried too: both indexes exist
+				// (decided from a value already drawn: recorded tapes keep their meaning)
+				other.VertexSlice()
+				h.st.probe("addmesh: the other mesh had its index built")
 			}
 			h.real.AddMesh(other)
 			for _, t := range add {
